@@ -58,6 +58,8 @@ struct SF : public STEPfile {
     using STEPfile::ReadData1;
     using STEPfile::FindDataSection;
     int notCreated() const { return _entsNotCreated; }
+    int invalid() const { return _entsInvalid; }
+    int incomplete() const { return _entsIncomplete; }
 };
 
 static bool ordinary( int s ) {
@@ -91,7 +93,7 @@ static int run_files( const char * listfile ) {
         auto t0 = std::chrono::steady_clock::now();
         struct timespec c0; clock_gettime( CLOCK_PROCESS_CPUTIME_ID, &c0 );
         alarm( budget > 0 ? budget : 1 );
-        long outb = 0; int sev = 0, n = 0;
+        long outb = 0; int sev = 0, n = 0, inv = 0, inc = 0;
         {
             Registry reg( SchemaInit );
             InstMgr im;
@@ -99,6 +101,7 @@ static int run_files( const char * listfile ) {
             Severity s = ( mode == "w" ) ? sf.ReadWorkingFile( path ) : sf.ReadExchangeFile( path );
             sev = ( int )s;
             n = im.InstanceCount();
+            inv = sf.invalid(); inc = sf.incomplete();
             CountBuf cb; std::ostream os( &cb );
             sf.WriteExchangeFile( os );
             CountBuf cb2; std::ostream os2( &cb2 );
@@ -110,7 +113,7 @@ static int run_files( const char * listfile ) {
         double ms = std::chrono::duration<double, std::milli>( std::chrono::steady_clock::now() - t0 ).count();
         struct timespec c1; clock_gettime( CLOCK_PROCESS_CPUTIME_ID, &c1 );
         double cpu = ( c1.tv_sec - c0.tv_sec ) * 1000.0 + ( c1.tv_nsec - c0.tv_nsec ) / 1.0e6;   // independent of machine load
-        fprintf( proto, "E %d sev=%d ord=%d n=%d out=%ld ms=%.1f cpu=%.1f\n", idx, sev, ordinary( sev ) ? 1 : 0, n, outb, ms, cpu );
+        fprintf( proto, "E %d sev=%d ord=%d n=%d out=%ld ms=%.1f cpu=%.1f inv=%d inc=%d\n", idx, sev, ordinary( sev ) ? 1 : 0, n, outb, ms, cpu, inv, inc );
         fflush( proto );
         idx++;
     }
